@@ -13,7 +13,7 @@ from .core import Outcome, PropertySpec
 from gemdat.metrics import TrajectoryMetrics  # noqa: E402
 
 PID = 'C06'
-MODULES = ['GProofs.C06', 'GProofs.C06Gen', 'GProofs.C14Gen']
+MODULES = ['GProofs.C06', 'GProofs.C06Fft', 'GProofs.C06Gen', 'GProofs.C14Gen']
 
 
 def gen_case(rng, tmax):
@@ -51,8 +51,9 @@ def check_case(out: Outcome, case, tag):
     if not np.allclose(d.T ** 2, dist2, rtol=1e-9, atol=1e-12 * scale):
         out.fail('property', 'distance-is-cartesian-length', case, expected=dist2.tolist(), observed=(d.T ** 2).tolist())
     total_time = T * case['time_step']
-    for dims in (1, 2, 3):
-        got = float(TrajectoryMetrics(tr).tracer_diffusivity(dimensions=dims))
+    metrics = TrajectoryMetrics(tr)  # ONE object asked for every dimensionality, in an order that varies from case to case
+    for dims in [(3, 2, 1, 3), (1, 2, 3, 2), (2, 3, 1, 1)][(T + A) % 3]:
+        got = float(metrics.tracer_diffusivity(dimensions=dims))
         want = float(np.mean(dist2[-1])) * angstrom**2 / (2 * dims * total_time)
         if not np.isclose(got, want, rtol=1e-9, atol=0):
             out.fail('property', 'tracer-diffusivity', case, expected=want, observed=got, note=f'dimensions={dims}')
@@ -79,6 +80,30 @@ def check_case(out: Outcome, case, tag):
         out.sample({'tag': tag, **case, 'msd': msd.tolist()})
 
 
+def check_fft_step(out: Outcome, rng):
+    """the trusted step of C06Fft made observable: numpy's `ifft(|fft(x, n=pad)|^2)` IS the cyclic autocorrelation of x padded (or
+    truncated) to `pad` (GModel.Fft.cyclicAcorr), for the code's length 2n and for other lengths (where it is not the linear one)"""
+    n = int(rng.integers(1, 33))
+    x = rng.integers(-40, 41, size=n)
+    pads = sorted({2 * n, max(2 * n - 1, 1), max(2 * n - 2, 1), n, n + int(rng.integers(1, 6)), max(n - int(rng.integers(1, 4)), 1), 2 * n + int(rng.integers(1, 9))})
+    lines = [(str(p), f'cacorr {p} {n} ' + ' '.join(str(int(v)) for v in x)) for p in pads]
+    res = core.drive(lines)
+    lin = [int(sum(int(x[t]) * int(x[t + k]) for t in range(n - k))) for k in range(n)]
+    for p in pads:
+        out.evaluations += 1
+        toks = res[str(p)].split()
+        assert toks[0] == 'ok', res[str(p)]
+        model = [int(core.dec_rat(t)) for t in toks[1:]]
+        got = np.fft.ifft(np.abs(np.fft.fft(x, n=p)) ** 2).real
+        m = min(n, p)
+        case = {'fft_step': True, 'x': x.tolist(), 'pad': p}
+        if not np.allclose(got[:m], model[:m], rtol=0, atol=1e-6 * (1 + max(abs(v) for v in model))):
+            out.fail('correspondence', 'fft-is-cyclic-autocorrelation', case, expected=model[:m], observed=got[:m].tolist())
+        if p >= 2 * n - 1 and model != lin:
+            out.fail('correspondence', 'cyclic-eq-linear-instance', case, expected=lin, observed=model, note='theorem instance C06Fft.cyclic_eq_linear fails')
+        out.count('fft-step-pad-long-enough' if p >= 2 * n - 1 else ('fft-step-wraps' if model != lin else 'fft-step-short-but-equal'))
+
+
 def corpus():
     d = core.CORPUS / PID
     return [json.loads(p.read_text()) for p in sorted(d.glob('*.json'))] if d.exists() else []
@@ -92,11 +117,21 @@ def run(tier: str, seed: int, scale: int) -> Outcome:
     n = (300 if tier == 'quick' else 3000) * scale
     for k in range(n):
         check_case(out, gen_case(rng, 40 if (tier == 'quick' or k % 10) else 200), 'random')
+    for _ in range((60 if tier == 'quick' else 600) * scale):
+        check_fft_step(out, rng)
     return out
 
 
 def replay(case):
     out = Outcome()
+    if case.get('fft_step'):
+        x, p = np.array(case['x']), int(case['pad'])
+        n = len(x)
+        model = [int(core.dec_rat(t)) for t in core.drive1(f'cacorr {p} {n} ' + ' '.join(str(int(v)) for v in x)).split()[1:]]
+        got = np.fft.ifft(np.abs(np.fft.fft(x, n=p)) ** 2).real
+        m = min(n, p)
+        ok = bool(np.allclose(got[:m], model[:m], rtol=0, atol=1e-6 * (1 + max(abs(v) for v in model))))
+        return ok, f'numpy {got[:m].tolist()} vs cyclic autocorrelation {model[:m]}'
     check_case(out, case, 'replay')
     fails = [f for f in out.failures if f.kind == 'property']
     text = '\n'.join(f'{f.clause}: expected {str(f.expected)[:200]} observed {str(f.observed)[:200]} {f.note}' for f in fails) or 'no failure'
@@ -109,14 +144,15 @@ SPEC = PropertySpec(
     run=run,
     replay=replay,
     gen=translate.gen_for('FormulasC06', 'FormulasC14'),
-    rule=('random walks of 2-40 frames (thorough: every tenth up to 200) x 1-4 atoms, dyadic coordinates, step sizes up to 28/64 so '
+    rule=('[FFT step] 60 (thorough 600) integer signals of 1-32 samples: numpy ifft(|fft(x, n=pad)|^2) vs GModel.Fft.cyclicAcorr for pad in {2n, 2n-1, 2n-2, n, n+k, n-k, 2n+k}; for pad >= 2n-1 also = the linear sums (instance of C06Fft.cyclic_eq_linear). '
+          'random walks of 2-40 frames (thorough: every tenth up to 200) x 1-4 atoms, dyadic coordinates, step sizes up to 28/64 so '
           'that atoms cross faces many times, on pool lattices incl. strongly triclinic and re-oriented ones. mean_squared_displacement() '
           'vs the exact rational definition (average over time origins of |r(t+m) - r(t)|^2 on unwrapped Cartesian tracks) for every '
           'atom and lag, rel 1e-9; zero at lag 0; distances^2 vs metric quadratic form of the cumulative displacement; tracer '
           'diffusivity for d = 1,2,3 vs mean final squared distance / (2 d T dt). The model also evaluates the code\'s own S1-recursion '
           'algorithm and checks it equals the definition exactly on every case. Non-trivial: >= 2 atoms moving differently, a face '
           'crossing and a non-orthogonal cell.'),
-    trusted=['np.fft.fft/ifft with n = 2N zero padding computes the linear autocorrelation sums (S2) — modelled by direct sums, validated to 1e-9 per case',
+    trusted=['np.fft.ifft(|np.fft.fft(x, n=pad)|^2) is the cyclic autocorrelation of the padded signal (convolution theorem; compared with GModel.Fft.cyclicAcorr on integer signals to 1e-6 absolute); that this is the linear autocorrelation for the source\'s pad length is PROVED (C06Fft.cyclic_eq_linear, C06Gen.msdFftLength_ok on the translated length)',
              'np.sqrt, lattice.get_cartesian_coords (float matrix product) compared with tolerance 1e-9'],
     assumptions=['NoTie (unwrapping is defined)'],
 )
